@@ -425,6 +425,12 @@ where
 // sender tasks
 
 pub fn start_senders(w: &Rc<World>, plan: &Rc<Plan>, sink: v5::MqttSink) {
+    if plan.senders.iter().flatten().any(|o| matches!(o, AppOp::PubQ1Nb { .. })) {
+        let w = w.clone();
+        sink.publish_ack_cb(move |a, disc| {
+            w.ack_cb(a.packet_id.get(), a.reason_code as u8, crate::common::user_props_sig(&a.properties, a.reason_string.as_ref()), disc);
+        });
+    }
     for (sidx, ops) in plan.senders.iter().enumerate() {
         let slot = w.add_sender(ops.len());
         debug_assert_eq!(slot, sidx);
@@ -576,6 +582,32 @@ async fn exec_op(
             }
             match b.send_at_least_once(Bytes::from(make_payload(tag, *len as usize))).await {
                 Ok(a) => ack_info("puback", &a),
+                Err(e) => OpResult::Err(err_str(&e)),
+            }
+        }
+        AppOp::PubQ1Nb { len, pid } => {
+            // the non-blocking send panics on a sink that is not ready: wait for readiness first
+            while sink.is_open() && !sink.is_ready() {
+                if !sink.ready().await {
+                    break;
+                }
+            }
+            if sink.is_open() && !sink.is_ready() {
+                return OpResult::Err("Disconnected".into());
+            }
+            // the id the library would pick is not reported by this API: the caller always chooses
+            let pid = pid.unwrap_or(200 + (sidx * 16 + opi) as u16);
+            let mark = w.cb_mark();
+            let b = sink.publish(topic).packet_id(pid);
+            match b.send_at_least_once_no_block(Bytes::from(make_payload(tag, *len as usize))) {
+                Ok(()) => {
+                    let (code, sig, disc) = w.cb_wait(pid, mark).await;
+                    if disc {
+                        OpResult::Err("Disconnected".into())
+                    } else {
+                        OpResult::Ok(AckInfo { what: "puback", pid, code, sig, codes: Vec::new() })
+                    }
+                }
                 Err(e) => OpResult::Err(err_str(&e)),
             }
         }
